@@ -186,6 +186,26 @@ func (a *Aggregate) AddResult(idx int, r *CaseResult) {
 	}
 }
 
+// AddObservation merges what a post-processing step saw (stats, sets, violations) without counting a case.
+func (a *Aggregate) AddObservation(r *CaseResult) {
+	a.mu.Lock()
+	defer a.mu.Unlock()
+	for k, v := range r.Stats {
+		a.Stats[k] += v
+	}
+	for k, vs := range r.Sets {
+		if a.Sets[k] == nil {
+			a.Sets[k] = map[string]bool{}
+		}
+		for _, v := range vs {
+			a.Sets[k][v] = true
+		}
+	}
+	for _, v := range r.Violations {
+		a.Violations = append(a.Violations, FoundViolation{-1, v})
+	}
+}
+
 func (a *Aggregate) SetNames(set string) []string {
 	var r []string
 	for k := range a.Sets[set] {
@@ -205,6 +225,7 @@ type Finding struct {
 	What     string          `json:"what"`
 	Kind     string          `json:"kind,omitempty"` // deviation kind that is attributed
 	Tag      string          `json:"tag,omitempty"`  // trigger tag (input side) that must be present
+	TagContains []string     `json:"tag_contains,omitempty"` // alternative to Tag: some tag of the violation contains all of these substrings
 	Witness  json.RawMessage `json:"witness,omitempty"`
 	Commit   string          `json:"commit,omitempty"`
 }
@@ -239,12 +260,23 @@ func (f *Finding) matches(v *Violation) bool {
 	if !kindMatches(f.Kind, v.Kind) {
 		return false
 	}
-	if f.Tag == "" {
+	if f.Tag == "" && len(f.TagContains) == 0 {
 		return false
 	}
 	for _, t := range v.Tags {
-		if t == f.Tag {
+		if f.Tag != "" && t == f.Tag {
 			return true
+		}
+		if len(f.TagContains) > 0 {
+			all := true
+			for _, sub := range f.TagContains {
+				if !strings.Contains(t, sub) {
+					all = false
+				}
+			}
+			if all {
+				return true
+			}
 		}
 	}
 	return false
